@@ -39,7 +39,42 @@ def rust_param_counts(repo):
     return out
 
 
-def generate(cm, repo, prefixes):
+HARMLESS_ATTRS = {"nothrow", "leaf", "warn_unused_result", "visibility", "unused", "deprecated", "cold", "hot", "used",
+                  "dllimport", "dllexport", "cdecl", "nodiscard", "maybe_unused", "noinline", "always_inline", "gnu_inline", "artificial"}
+
+
+def declared_attributes(header_dir, fn_names):
+    """{fn: [attribute names]} read from the *preprocessed* diplomat_runtime.h (macros expanded): GNU `__attribute__((..))`
+    and C23 `[[..]]` specifiers attached to the function's declaration.  These carry promises to the C compiler (const,
+    pure, malloc, ...) that the type-level declaration model cannot see."""
+    import subprocess
+    hdr = os.path.join(header_dir, "diplomat_runtime.h")
+    try:
+        pre = subprocess.run(["goto-cc", "-E", "-I", header_dir, hdr], stdout=subprocess.PIPE, stderr=subprocess.PIPE, text=True, timeout=120).stdout
+    except Exception:
+        return None
+    pre = "\n".join(l for l in pre.split("\n") if not l.startswith("#"))
+    out = {}
+    for fn in fn_names:
+        m = re.search(r"[^;{}]*\b%s\s*\([^;{}]*\)[^;{}]*;" % re.escape(fn), pre)
+        if not m:
+            continue
+        decl = m.group(0)
+        attrs = []
+        for am in re.finditer(r"__attribute__\s*\(\((.*?)\)\)", decl, flags=re.S):
+            attrs += [a.strip() for a in re.split(r",(?![^()]*\))", am.group(1)) if a.strip()]
+        for am in re.finditer(r"\[\[(.*?)\]\]", decl, flags=re.S):
+            attrs += [a.strip() for a in re.split(r",(?![^()]*\))", am.group(1)) if a.strip()]
+        norm = []
+        for a in attrs:
+            a = re.sub(r"\(.*\)$", "", a).strip()
+            a = a.split("::")[-1].strip("_ ")
+            norm.append(a)
+        out[fn] = norm
+    return out
+
+
+def generate(cm, repo, prefixes, header_dir=None):
     """Returns (rust_text, static_findings[(subject, message)], harness_names)."""
     names = {}
     statics = []
@@ -59,6 +94,20 @@ def generate(cm, repo, prefixes):
             continue
         fns[fn] = cm.functions[fn]
     mt = lambda t: hgen_c.mtype(cm, t, names)
+    attrs = declared_attributes(header_dir, list(fns)) if header_dir else {}
+    unvalidated = []
+    if attrs is None:
+        attrs = {}
+        unvalidated.append("the preprocessed diplomat_runtime.h could not be produced, so function attributes were not read")
+    READERS = ("diplomat_buffer_write_get_bytes", "diplomat_buffer_write_len", "diplomat_is_str")
+    for fn, al in attrs.items():
+        for a in al:
+            if a in HARMLESS_ATTRS or (a == "pure" and fn in READERS):
+                continue        # `pure` (may read memory, no side effects) is true of the three readers
+            if a == "const" and fn in READERS:
+                continue        # checked by the solver below: same argument values, different memory => same result?
+            unvalidated.append("%s is declared with attribute `%s`, which this check cannot validate against the Rust definition" % (fn, a))
+    is_const = lambda fn: "const" in attrs.get(fn, [])
 
     def pick(fn, kind):
         """index and mirror type of the (only) parameter of the given kind"""
@@ -94,7 +143,14 @@ def generate(cm, repo, prefixes):
         // one byte is valid UTF-8 exactly when it is ASCII; zero bytes always are
         assert!(r == (n == 0 || b[0] < 0x80), "C01: diplomat_is_str called through the header's prototype gives a different answer");
         kani::cover!(r);
-        kani::cover!(!r);""" % (mt(pt), mt(lt), call("diplomat_is_str", {pi: "a_ptr", li: "a_len"})))
+        kani::cover!(!r);%s""" % (mt(pt), mt(lt), call("diplomat_is_str", {pi: "a_ptr", li: "a_len"}),
+                                  ("""
+        // the header declares the function `const`: equal argument values must give equal results whatever memory holds
+        let mut b2 = b; b2[0] = kani::any();
+        core::ptr::write(a_ptr as usize as *mut u8, b2[0]);
+        let r2: bool = %s;
+        assert!(r == r2, "C01: diplomat_is_str is declared __attribute__((const)) but its result depends on the bytes pointed to");""" % call("diplomat_is_str", {pi: "a_ptr", li: "a_len"}))
+                                  if is_const("diplomat_is_str") else ""))
         if "diplomat_simple_write" in fns:
             pi, pt = pick("diplomat_simple_write", "ptr")
             li, lt = pick("diplomat_simple_write", "int")
@@ -148,6 +204,7 @@ def generate(cm, repo, prefixes):
         let t: *mut m::DiplomatWrite = %s;
         assert!(!t.is_null(), "C01: diplomat_buffer_write_create returned NULL");
         assert!((*t).len as usize == 0 && (*t).cap as usize == cap && !(*t).grow_failed, "C01: the header's DiplomatWrite does not describe the fresh writer");
+        %s
         let k: usize = kani::any();
         kani::assume(k <= 3);
         let chunk = [b'x', b'y', b'z'];
@@ -164,10 +221,19 @@ def generate(cm, repo, prefixes):
         let mut i = 0;
         while i < k { assert!(*(bytes as usize as *const u8).add(i) == chunk[i], "C12: bytes read through the header differ from what Rust wrote"); i += 1; }
         assert!((*t).len as usize == k && (*t).buf as usize == bytes as usize, "C01: the header's DiplomatWrite fields disagree with the accessors");
+        %s
         %s;
         kani::cover!(k == 3 && cap == 0);""" % (mt(ct), call("diplomat_buffer_write_create", {0: "a_cap"}),
+                                                  "let len0: %s = %s; let bytes0: %s = %s;" % (mt(fns["diplomat_buffer_write_len"]["ret"]), call("diplomat_buffer_write_len", {0: "t"}),
+                                                                                              mt(fns["diplomat_buffer_write_get_bytes"]["ret"]), call("diplomat_buffer_write_get_bytes", {0: "t"}))
+                                                  if (is_const("diplomat_buffer_write_len") or is_const("diplomat_buffer_write_get_bytes")) else "",
                                                   mt(fns["diplomat_buffer_write_get_bytes"]["ret"]), call("diplomat_buffer_write_get_bytes", {0: "t"}),
                                                   mt(fns["diplomat_buffer_write_len"]["ret"]), call("diplomat_buffer_write_len", {0: "t"}),
+                                                  "\n        ".join(
+                                                      (["assert!(len0 == len, \"C12: diplomat_buffer_write_len is declared __attribute__((const)) but two calls with the same pointer return different lengths (a C compiler may reuse the first)\");"]
+                                                       if is_const("diplomat_buffer_write_len") else []) +
+                                                      (["assert!(bytes0 as usize == bytes as usize, \"C12: diplomat_buffer_write_get_bytes is declared __attribute__((const)) but two calls with the same pointer return different buffers (a C compiler may reuse the first, stale one)\");"]
+                                                       if is_const("diplomat_buffer_write_get_bytes") else [])),
                                                   call("diplomat_buffer_write_destroy", {0: "t"})))
     except hgen_c.Mismatch as e:
         statics.append(("diplomat_runtime.h", str(e)))
@@ -196,4 +262,4 @@ unsafe fn cast<A, B>(a: A) -> B {
             h = "%s_rtproto_%s" % (pfx, nm)
             harnesses.append(h)
             out.append("#[kani::proof]\n#[kani::unwind(%d)]\npub(crate) fn %s() {\n    unsafe {%s\n    }\n}\n" % (unwind, h, body))
-    return "\n".join(out), statics, harnesses
+    return "\n".join(out), statics, harnesses, unvalidated
